@@ -452,6 +452,7 @@ class LmtpClient(Client):
         return reply
 
     def send_data(self, *data):
+        self._flush_pipeline()
         ret = []
         for address, rcptto_reply in self.rcpttos:
             if rcptto_reply.code.startswith('2'):
@@ -469,6 +470,7 @@ class LmtpClient(Client):
         return ret
 
     def send_empty_data(self):
+        self._flush_pipeline()
         ret = []
         for address, rcptto_reply in self.rcpttos:
             if rcptto_reply.code.startswith('2'):
